@@ -367,7 +367,7 @@ fn sweep_date_directives(run: &Run) -> bool {
 
 /// A thread-local guard that logs "worker finished" from its destructor is an ordinary thing to have; by then other
 /// thread-locals of the thread (registered later) are already gone. Runs in a child process: a panic inside a
-/// thread-local destructor aborts the process. Left out: local-zone dates, thread names and MDC lookups, which rest on
+/// thread-local destructor aborts the process. Left out: local-zone dates and MDC lookups, which rest on
 /// thread-locals of chrono, std and log-mdc themselves (chrono's `Local` cannot be used from a thread-local destructor).
 #[derive(Serialize, Deserialize, Debug, Clone)]
 pub struct Teardown {
@@ -466,7 +466,7 @@ pub fn check_teardown(tmp: &std::path::Path, c: &Teardown, obs: &mut Obs) -> Cas
 pub fn run(run: &Run) {
     if run.worker.0 == 0 {
         let t = run.tmp.clone();
-        let pats: Vec<String> = ["{I}", "{thread_id}|{l}|{m}", "{P}|{pid}", "{h({l})} {m}{n}", "{d(%Y)(utc)}", "{t}|{M}|{f}|{L}", "{({I}):>12}|{m:<5.5}", "{i}"].iter().map(|s| s.to_string()).collect();
+        let pats: Vec<String> = ["{I}", "{thread_id}|{l}|{m}", "{P}|{pid}", "{h({l})} {m}{n}", "{d(%Y)(utc)}", "{t}|{M}|{f}|{L}", "{({I}):>12}|{m:<5.5}", "{i}", "[{T}] {l} {m}", "{thread}"].iter().map(|s| s.to_string()).collect();
         run.eval_one("thread-exit", &Teardown { patterns: pats }, &move |c: &Teardown, o: &mut Obs| check_teardown(&t, c, o));
     }
     if run.worker.0 == 1 % run.worker.1 {
